@@ -102,6 +102,14 @@ def c06(tier):
                     data += bits_of(rng.getrandbits(56), 56)
                 g.append(run1(hexs(with_ap(data, a))))
         groups.append(g)
+    # a downlink log that cannot be written changes nothing about the squawk
+    for dlog in ('/dev/full', os.path.join(vlib.workdir(), 'no-such-dir', 'd.log')):
+        a = 0x4b0f00 + len(groups) % 200
+        g = [reset(['-D', dlog]), run1(df11(5, a))]
+        for _ in range(8):
+            g.append(run1(short(5, rng.getrandbits(13), a, rng.getrandbits(14))))
+            g.append(run1(long_(21, rng.getrandbits(13), bits_of(rng.getrandbits(56), 56), a)))
+        groups.append(g)
     # -f lists naming both carriers in any order: the squawk follows the last DF5 / DF21
     for fl in (['-f', '21', '-f', '5'], ['-f', '5', '-f', '21'], ['-f', '20', '-f', '21', '-f', '4', '-f', '5'], ['-f', '21', '-f', '17', '-f', '5', '-f', '11']):
         a = 0x4b0e00 + len(groups) % 200
@@ -649,6 +657,13 @@ def c04(tier):
                       '(bursts of 13 bits that the DF11 rule cannot see exist)' % mb56, maxburst=mb56)
     rng = random.Random(vlib.seed())
     sq = valid_squitters(rng, 3 if tier == 'quick' else 10)
+    # ... and squitters whose parity field has leading zero digits (a comparison that drops leading zeros would not look at them)
+    for want in ('0', '00'):
+        for _ in range(20000):
+            fr_ = df17(5, 0x3c6000 + rng.getrandbits(12), me_ident(4, 2, [rng.getrandbits(6) for _ in range(8)]), df=rng.choice([17, 18]))
+            if fr_[22:].startswith(want):
+                sq.append(fr_)
+                break
     groups = []
     for fr in sq:
         nb = len(fr) * 4
@@ -2047,6 +2062,9 @@ def c14(tier):
             r = blank_row(0x600000 + k)
             r[fld] = full[fld]
             rows.append(r)
+        # addresses with leading zero digits (six hexadecimal digits, always)
+        for a_ in (0x00A1B2, 0x000001, 0x0FFFFF, 0x012345):
+            r = blank_row(a_); r['alt'] = [a_ % 40000]; rows.append(r)
         # the threat flag with and without a squawk next to it
         r = blank_row(0x6000fd); r['thr'] = [0x2071]; rows.append(r)
         r = blank_row(0x6000fc); r['thr'] = [0x2072]; r['sq'] = [7700]; rows.append(r)
@@ -2089,7 +2107,8 @@ def c15(tier):
     binary = vlib.build_harness('release')
     keys = 'saAvVNSWEdDc'
     orders = [''] + list(keys) + ['z', 'zz', 'Q'] + [a + b for a in 'saANd' for b in 'sAVWc'] + ['sz', 'zs', 'Az', 'xNy'] + \
-             ['sAs', 'aNa', 'AsA', 'sas', 'NsAN', 'asA', 'Asa', 'sxAxs', 'aaA', 'AAa']
+             ['sAs', 'aNa', 'AsA', 'sas', 'NsAN', 'asA', 'Asa', 'sxAxs', 'aaA', 'AAa'] + \
+             ['sS', 'Ss', 'cC', 'Cc', 'wW', 'Ww', 'eE', 'Ee', 'nN', 'Nn', 'dD', 'Dd', 'aA', 'Aa', 'vV', 'Vv', 'xX', 'zZs']
     if tier == 'thorough':
         orders += [a + b for a in keys for b in keys]
     cases = []
@@ -2127,6 +2146,21 @@ def c15(tier):
                 r['dist'] = [100 * rng.randrange(0, 9000)] if rng.random() < .8 else []
                 rows.append(r)
             cases.append({'id': len(cases), 'i': '', 'o': o, 'rows': rows})
+    # finely spaced keys in an order that opposes the address order (a key reduced to a coarser unit would tie them)
+    for o in ('a', 'A', 's', 'v', 'V', 'd', 'D', 'N', 'S', 'W', 'E', 'sa', 'As'):
+        for t in range(2 if tier == 'quick' else 10):
+            n = rng.randrange(4, 8)
+            addrs = sorted(rng.sample(range(1, 0xFFFFFF), n))
+            base_alt = rng.randrange(1000, 40000, 25)
+            rows = []
+            for j, a in enumerate(addrs):
+                r = blank_row(a)
+                r['alt'] = [base_alt + 25 * (n - j)]; r['sq'] = [1000 + (n - j)]; r['vr'] = [64 * (n - j) - 128]
+                r['lat'] = 52000000 + 10 * (n - j); r['lon'] = -8000000 - 10 * (n - j); r['dist'] = [100 * (n - j)]
+                rows.append(r)
+            if t % 2:
+                rng.shuffle(rows)
+            cases.append({'id': len(cases), 'i': 'e', 'o': o, 'rows': rows})
     # a row is a row until the sweep removes it: tables in which some rows are older than delete_after (default 60 s, and -d 2 / -d 0)
     for t in range(6 if tier == 'quick' else 60):
         rows = []
